@@ -842,6 +842,9 @@ class Interp:
             return (INT, wrap(self.w.cs, INT))
         if n in FLOAT_CALLS:
             return self.float_call(n, args)
+        if n == "fatal":
+            # QEMU's "can not happen" marker of a branch that is never taken; it has no architectural effect
+            return (("void",), None)
         raise CUnsupported("call of %s" % n)
 
     def invoke(self, r, args):
